@@ -17,5 +17,5 @@ go test -vet=off -count=1 ${EXTRA_FLAGS:-} -timeout 10m -run "$RX" ./$PKG/ >/tmp
 rm -f "$WT/$PKG/zz_seed_demo_test.go"
 go test -vet=off -count=1 -timeout 25m ./... >/tmp/confirm.$$.c 2>&1; D=$?
 echo "demo without patch: exit $A (want 0); build with patch: $B (want 0); demo with patch: exit $C (want != 0); suite with patch: exit $D (want 0)"
-[ $A -eq 0 ] && [ $B -eq 0 ] && [ $C -ne 0 ] && [ $D -eq 0 ] && [ $r -eq 0 ] && echo CONFIRMED || { echo NOT-CONFIRMED; tail -5 /tmp/confirm.$$.a /tmp/confirm.$$.c; }
+[ $A -eq 0 ] && [ $B -eq 0 ] && [ $C -ne 0 ] && [ $D -eq 0 ] && [ $r -eq 0 ] && echo CONFIRMED || { echo NOT-CONFIRMED; tail -n 5 /tmp/confirm.$$.a /tmp/confirm.$$.c; }
 cd /; git -C /repo worktree remove --force "$WT"; rm -f /tmp/confirm.$$.*
